@@ -23,7 +23,7 @@ CLAIMED["C19"] = dict(text="Bounded symbolic model checking of the real compleme
 CLAIMED["C12"] = dict(text="Bounded symbolic model checking of the real sequence readers/builders and gen_seq: sequence length, every character / residue name, "
                   "line breaks, terminators, block counts, macro levels and branching, connect records, termini and labels are solver variables; oracles are "
                   "independently written IUPAC tables and a closed-form tree/offset computation; gen_seq output is read back by the real JSON reader.",
-             design="DESIGN.md 4/C12", technique="symbolic execution of the real Python code with z3 (symx) with real files in a per-path temp dir; selector-only",
+             design="DESIGN.md 4/C12", engine="symx + crosshair", technique="symbolic execution of the real Python code with z3: symx (selectors, real files) and CrossHair (z3 string theory) for _parse_plain on arbitrary characters",
              note="characters from a stated alphabet (not arbitrary Unicode), sizes as in evidence bounds; statistical residue mixes excluded. " + NOTE_COMMON)
 CLAIMED["C09"] = dict(text="Bounded symbolic model checking of the real parameter resolution: match_dihedral_interaction_types over every atom-type tuple and "
                   "every pair of table entries (all 16 wildcard masks); read_topology + preprocess on generated topologies (mask, direction, terms, "
@@ -100,7 +100,7 @@ CLAIMED["C18"] = dict(text="Bounded symbolic model checking of the real build-fi
                   "files; several directive lines per kind; repeated/interleaved molecule names; a molecule whose residues are not stored in id order), of "
                   "parse_residue_spec/_find_nodes/find_starting_node_from_spec over every subset of omitted fields (incl. residue id 0), of split_residue over every "
                   "assignment of atoms to new residues, and of AnnotateLigands attach/hand-back.",
-             design="DESIGN.md 4/C18", technique="symbolic execution of the real Python code with z3 (symx): symbolic range bounds concretised by solver-driven forking, selectors for specifications",
+             design="DESIGN.md 4/C18", engine="symx + crosshair", technique="symbolic execution of the real Python code with z3: symx (symbolic range bounds concretised by solver-driven forking) and CrossHair (z3 string theory) for parse_residue_spec on arbitrary name strings",
              note="ranges within 0..4 (quick) / 0..6 (thorough); names from a fixed set (no '#'/'-' inside names, no arbitrary unicode: the planned CrossHair string run is not included); placement of ligands is C05/C17. " + NOTE_COMMON)
 CLAIMED["C03"] = dict(text="Bounded symbolic model checking as four lemmas on the real code: the body of gen_coords with its heavy stages stubbed and symbolic box "
                   "vectors (box precedence, written box, stage order), BuildSystem.__init__/_compute_box_size with symbolic masses and density (cubic box, "
@@ -140,7 +140,7 @@ def main():
                 "thorough_cmd": "./vcheck %s --tier thorough" % pid,
                 "evidence_file": "/verif/evidence/%s.json" % pid,
                 "replay_cmd_template": "/verif/.venv/bin/python {path}",
-                "engine": "symx",
+                "engine": c.get("engine", "symx"),
                 "level_claimed": {"category": "model_checking", "text": c["text"], "design_ref": c["design"]},
                 "level_note": c["note"],
                 "technique": c["technique"],
@@ -154,7 +154,9 @@ def main():
                   "enable": "none needed; checks import polyply from /repo's working tree",
                   "baseline_off_cmd": BASE, "source_commits": [], "add_only": True},
         "engines": [{"name": "symx", "path": "/verif/pverif/symx", "serves_properties": sorted(CLAIMED),
-                     "kind_free_text": "proxy-based symbolic execution of the real Python code with z3 (DFS by re-execution)"}],
+                     "kind_free_text": "proxy-based symbolic execution of the real Python code with z3 (DFS by re-execution)"},
+                    {"name": "crosshair", "path": "/verif/pverif/chx.py", "serves_properties": ["C12", "C18"],
+                     "kind_free_text": "CrossHair 0.0.110 symbolic execution (z3 string theory) of contract functions over the real string parsers"}],
         "checks": checks,
         "not_applicable": na,
         "notes": "See DESIGN.md. Exit 0 = held within bounds; 1 = reproduced violation; 2 = harness error / inconclusive machinery.",
